@@ -282,6 +282,27 @@ def run(ctx):
         cmds.append(dbside.cmd_create(lines2, cfg2)); exp.append(rep2); tags.append(("create_db (GTF, mixed strands)", repr(lines2)))
         if db2 is not None:
             cmds.append("dump"); exp.append(dbside.dump(db2)); tags.append(("tables after GTF import (mixed strands)", repr(lines2)))
+    # one LARGE GTF per run: 1005 genes with one or two single- or two-exon transcripts each (more than a thousand derived
+    # transcripts and genes), lines shuffled (oracle only)
+    rb = ctx.rng("c03", "large forest")
+    bigrecs = []
+    for g in range(1005 if not ctx.thorough else 2100):
+        for t in range(1 + (g % 7 == 0)):
+            a = 100 * g + 10 * t + 1
+            for e_ in range(1 + (g % 3 == 0)):
+                bigrecs.append(dict(ftype="exon", gene="BG%d" % g, transcript="BG%dT%d" % (g, t), start=a + 40 * e_,
+                                    end=a + 40 * e_ + 5, seqid="chr1", strand="+-"[g % 2]))
+    rb.shuffle(bigrecs)
+    bcfg = dbside.Cfg()
+    blines = gen_db.gtf_lines(bigrecs)
+    bdb, brep = dbside.py_create(dbside.write_lines(os.path.join(ctx.scratch, "c03big.gtf"), blines), bcfg)
+    res.evaluations += 1
+    res.count("large_forest_%d_lines" % len(blines))
+    bcase = {"scenario": "large_forest", "input": ["(%d generated lines)" % len(blines)], "no_shrink": True}
+    if bdb is None:
+        common.fail(res, bcase, "create_db_raised", "create_db raised on a large GTF file: " + brep, error=brep)
+    else:
+        oracle(bigrecs, bdb, bcfg, res, bcase)
     out = ctx.model(cmds)
     if out is not None:
         for c, m, e, (comp, inp) in zip(cmds, out, exp, tags):
